@@ -69,7 +69,10 @@ func checkC07(c *Ctx) {
 
 // shardCount returns the length of the hashedBuckets array.
 func (c *Ctx) shardCount(b BK) int64 {
-	obj := c.Pkg.Types.Scope().Lookup(b.Name)
+	var obj types.Object
+	if tn := c.lookupType(b.Name); tn != nil {
+		obj = tn
+	}
 	if obj == nil {
 		return 0
 	}
@@ -577,7 +580,7 @@ func (c *Ctx) c07NoOp() {
 				impls++
 				known := n == "NoOp"
 				for _, b := range backends {
-					if b.Name == n {
+					if b.Name == canonTypeName(tn) {
 						known = true
 					}
 				}
